@@ -160,6 +160,42 @@ class C20(E1Prop):
                 for o in seq:
                     o['dt'] = rng.choice([1, 5, 30])
                 self.script = seq
+            elif rng.random() < 0.3:
+                # story: a later development branch gets a change of its own
+                # (pushed by hand), then a stabilization branch of an earlier
+                # minor is asked for with that later tip - or a legitimate
+                # commit - as its explicit branching point
+                import re as _re
+                devs = [d for d in ops.dest_branches(w.cfg)
+                        if d.startswith('development/')]
+                minors = [d for d in devs if '.' in d.split('/')[1] and
+                          d.split('/')[1] not in w.cfg.get('stabs', {})]
+                if len(devs) >= 2 and minors:
+                    d = rng.choice(minors)
+                    later = [x for x in devs if devs.index(x) > devs.index(d)]
+                    ver = d.split('/')[1]
+                    zs = [int(m.group(1)) for t in w.cfg.get('tags', [])
+                          for m in [_re.match(r'^v?%s\.(\d+)(\.\d+)?$' %
+                                              _re.escape(ver), t[0])] if m]
+                    micro = max(zs + [-1]) + 1
+                    if rng.random() < 0.2:
+                        micro += 1
+                    src = rng.choice(later) if later and \
+                        rng.random() < 0.8 else d
+                    seq = []
+                    if later:
+                        seq += [{'op': 'open_pr', 'actor': 'alice',
+                                 'src': 'bugfix/TEST-770',
+                                 'dst': rng.choice(later), 'kind': 'new'},
+                                {'op': 'ff_dst', 'p': 0}]
+                    seq += [{'op': 'api', 'job': 'create_branch',
+                             'kwargs': {'branch': 'stabilization/%s.%d' % (
+                                 ver, micro)},
+                             'json': {'branch_from': src}},
+                            {'op': 'deliver_all'}]
+                    for o in seq:
+                        o['dt'] = rng.choice([1, 5, 30])
+                    self.script = seq
         if getattr(self, 'script', None):
             op = self.script.pop(0)
         else:
